@@ -20,6 +20,66 @@ fn limit() -> usize {
     REFUSE_ABOVE.load(std::sync::atomic::Ordering::Relaxed)
 }
 
+/// Requests above this many bytes get their call site recorded (innermost `rpm::` frame of a backtrace).
+static TRACE_ABOVE: std::sync::atomic::AtomicUsize = std::sync::atomic::AtomicUsize::new(usize::MAX);
+
+pub fn set_trace_above(n: usize) {
+    TRACE_ABOVE.store(n, std::sync::atomic::Ordering::Relaxed);
+}
+
+thread_local! {
+    static IN_TRACE: Cell<bool> = const { Cell::new(false) };
+    static BIG_SITE: Cell<Option<Box<str>>> = const { Cell::new(None) };
+}
+
+/// Innermost frame of the crate under test (and the innermost foreign frame below it) for a large request.
+fn trace_big(size: usize, refused: bool) {
+    if size <= TRACE_ABOVE.load(std::sync::atomic::Ordering::Relaxed) {
+        return;
+    }
+    let already = IN_TRACE.try_with(|t| t.replace(true)).unwrap_or(true);
+    if already {
+        return;
+    }
+    let bt = std::backtrace::Backtrace::force_capture().to_string();
+    let mut site = String::new();
+    let mut callee = String::new();
+    for line in bt.lines() {
+        let l = line.trim_start();
+        // frame lines look like "12: path::to::function"
+        let Some((n, f)) = l.split_once(": ") else { continue };
+        if n.parse::<u32>().is_err() {
+            continue;
+        }
+        if f.starts_with("rpm::") || f.starts_with("<rpm::") {
+            site = f.to_string();
+            break;
+        }
+        if !(f.starts_with("std::") || f.starts_with("core::") || f.starts_with("alloc::") || f.starts_with("<alloc::") || f.starts_with("vlib::") || f.starts_with("<vlib::") || f.starts_with("__rust") || f.starts_with("__rdl") || f.starts_with("__rg")) {
+            callee = f.to_string();
+        }
+    }
+    let desc = format!("{} (allocating in {})", if site.is_empty() { "?" } else { &site }, if callee.is_empty() { "the crate itself" } else { &callee });
+    if refused {
+        let msg = format!("VCHECK-REFUSED {} {}\n", size, desc);
+        unsafe {
+            libc::write(2, msg.as_ptr() as *const _, msg.len());
+        }
+    }
+    let _ = BIG_SITE.try_with(|b| b.set(Some(desc.into_boxed_str())));
+    let _ = IN_TRACE.try_with(|t| t.set(false));
+}
+
+/// Call site of the last large request on this thread since `reset`.
+pub fn big_site() -> Option<String> {
+    BIG_SITE.try_with(|b| {
+        let v = b.take();
+        let r = v.as_ref().map(|s| s.to_string());
+        b.set(v);
+        r
+    }).ok().flatten()
+}
+
 thread_local! {
     static LIVE: Cell<i64> = const { Cell::new(0) };
     static PEAK: Cell<i64> = const { Cell::new(0) };
@@ -54,6 +114,7 @@ fn on_free(sz: usize) {
 
 unsafe impl GlobalAlloc for Counting {
     unsafe fn alloc(&self, l: Layout) -> *mut u8 {
+        trace_big(l.size(), l.size() > limit());
         if l.size() > limit() {
             let _ = REFUSED.try_with(|r| r.set(r.get().max(l.size())));
             let _ = MAXREQ.try_with(|m| m.set(m.get().max(l.size())));
@@ -66,6 +127,7 @@ unsafe impl GlobalAlloc for Counting {
         p
     }
     unsafe fn alloc_zeroed(&self, l: Layout) -> *mut u8 {
+        trace_big(l.size(), l.size() > limit());
         if l.size() > limit() {
             let _ = REFUSED.try_with(|r| r.set(r.get().max(l.size())));
             let _ = MAXREQ.try_with(|m| m.set(m.get().max(l.size())));
@@ -82,6 +144,7 @@ unsafe impl GlobalAlloc for Counting {
         System.dealloc(p, l)
     }
     unsafe fn realloc(&self, p: *mut u8, l: Layout, new: usize) -> *mut u8 {
+        trace_big(new, new > limit());
         if new > limit() {
             let _ = REFUSED.try_with(|r| r.set(r.get().max(new)));
             let _ = MAXREQ.try_with(|m| m.set(m.get().max(new)));
@@ -110,6 +173,7 @@ pub fn reset() -> i64 {
     PEAK.with(|p| p.set(base));
     MAXREQ.with(|m| m.set(0));
     REFUSED.with(|r| r.set(0));
+    let _ = BIG_SITE.try_with(|b| b.set(None));
     base
 }
 
